@@ -3,7 +3,10 @@
     Proofs/UDistImpl.v, Proofs/UTest.v, Proofs/UDistSum.v, Proofs/UDistPrune.v,
     Proofs/UTestExact.v, Proofs/UDistUntied.v, Proofs/UDistRev.v (reversal symmetry),
     Proofs/UDistDP.v (loop invariant of UDist.p), Proofs/UTestUntied.v,
-    Proofs/B64Arith.v + Proofs/UTestSigma.v (binary64 sigma_U, classical reals).
+    Proofs/UDistUntiedEval.v (evaluators of the untied specification, all sizes),
+    Proofs/B64Arith.v + Proofs/UTestSigma.v (binary64 sigma_U, classical reals),
+    Proofs/UDistSpecFull.v (the three evaluators of the specification agree, unbounded),
+    Proofs/UDistSpecJudge.v (what Corr/RunC11.v judges against is the declarative tail).
 
     Model = golang/perf's internal/stats after hooks/fix_c11_udist_k2.diff,
     fix_c11_utest_greater.diff, fix_c11_utest_twosided_cap.diff and
@@ -14,10 +17,13 @@
     Repaired finding (hooks/fix_c11_utest_samples_equal_large.diff): the code before it,
     [mwu_old], C11_err_samples_equal_large_refuted (330284 equal values: no ErrSamplesEqual). *)
 From Coq Require Import ZArith List Bool Lia.
-From Perf Require Import Base.B64 Model.UStat Model.UDistSpec Model.UDistImpl Model.UTest.
+From Perf Require Import Base.B64 Model.UStat Model.UDistSpec Model.UDistImpl Model.UTest Model.UDistUntiedEval.
 From Perf Require Import Proofs.UStat Proofs.UDistSpec Proofs.UDistImpl Proofs.UTest.
 From Perf Require Import Proofs.UDistSum Proofs.UDistPrune Proofs.UTestExact Proofs.UDistUntied.
 From Perf Require Import Proofs.UDistRev Proofs.UDistDP Proofs.UTestUntied Proofs.UTestSigmaSweep Proofs.UTestSigma.
+From Perf Require Import Proofs.UDistUntiedEval.
+From Perf Require Import Proofs.UDistSpecFull Proofs.UDistSpecJudge.
+From Perf Require Corr.RunC11.
 Import ListNotations.
 Local Open Scope Z_scope.
 
@@ -215,6 +221,34 @@ Theorem C11_untied_tie_vector : forall t, Forall (fun x => 1 <= x) t -> has_ties
 Proof. exact untied_is_ones. Qed.
 Print Assumptions C11_untied_tie_vector.
 
+(** the evaluators with which Corr/RunC11.v computes the SPECIFICATION's counts on untied
+    samples beyond the enumeration budget (in particular both sizes in 30..50, where
+    C(n1+n2, n1) exceeds 2^64): unbounded-integer table fills of the Mann-Whitney
+    recurrence, equal to the declarative counts for ALL sizes and all 2U = w — lower tail,
+    upper tail, and the whole distribution at once (for UDist.CDF / UDist.PMF) *)
+Theorem C11_untied_evaluator_le : forall n1 n2 w, 0 <= n1 -> 0 <= n2 ->
+  untied_le n1 n2 w = count_le (ones (n1 + n2)) n1 w.
+Proof. exact untied_le_correct. Qed.
+Print Assumptions C11_untied_evaluator_le.
+Theorem C11_untied_evaluator_ge : forall n1 n2 w, 0 <= n1 -> 0 <= n2 ->
+  untied_ge n1 n2 w = count_ge (ones (n1 + n2)) n1 w.
+Proof. exact untied_ge_correct. Qed.
+Print Assumptions C11_untied_evaluator_ge.
+Theorem C11_untied_evaluator_table_le : forall n1 n2 w, 0 <= n1 -> 0 <= n2 ->
+  tab_le (untied_table n1 n2) w = count_le (ones (n1 + n2)) n1 w.
+Proof. exact tab_le_correct. Qed.
+Print Assumptions C11_untied_evaluator_table_le.
+Theorem C11_untied_evaluator_table_eq : forall n1 n2 w, 0 <= n1 -> 0 <= n2 ->
+  tab_eq (untied_table n1 n2) w = count_eq (ones (n1 + n2)) n1 w.
+Proof. exact tab_eq_correct. Qed.
+Print Assumptions C11_untied_evaluator_table_eq.
+(** instances: small ones against the enumeration, and 40 x 40 (C(80,40) > 2^64) *)
+Example C11_example_untied_evaluator :
+  untied_le 3 4 6 = 7 /\ count_le (ones 7) 3 6 = 7 /\ untied_ge 3 4 6 = 31 /\ count_ge (ones 7) 3 6 = 31 /\
+  tab_eq (untied_table 3 4) 6 = 3 /\ count_eq (ones 7) 3 6 = 3 /\ tab_le (untied_table 3 4) 7 = 7 /\
+  2 ^ 64 < choose 80 40 /\ untied_le 40 40 (2 * 800) + untied_le 40 40 (2 * 799) = choose 80 40.
+Proof. vm_compute. repeat split. Qed.
+
 (** exactness range of the integer form: for n1 + n2 <= 56 every count, every partial
     sum and the denominator C(n1+n2, n1) are integers below 2^53, i.e. binary64 numbers,
     and count / C is one correctly rounded division of exact integers (C(58,29) > 2^53:
@@ -274,6 +308,115 @@ Theorem C11_choose_is_binomial : forall n k, 0 <= k <= n ->
   choose n k = binom (Z.to_nat n) (Z.to_nat k).
 Proof. exact choose_binom. Qed.
 Print Assumptions C11_choose_is_binomial.
+
+(** ** the evaluators of the specification agree, for ALL tie vectors, sizes, thresholds.
+    Well-formedness: the runs are non-negative (positive tie vectors are an instance) and
+    the first-sample size is non-negative (for the fast evaluator a negative size is also
+    fine as soon as there is one run). Both hypotheses are needed: C11_example_evaluators.
+    Supersede the bounded sweeps fast_evaluator_agrees_bounded (N <= 8), subsets_agree_bounded
+    (N <= 7), total_is_count_all_bounded (N <= 8) of Proofs/UTest.v; pruning_agrees_bounded
+    was superseded by C11_tied_recurrence_correct already. *)
+
+(** peel_top_group for an arbitrary predicate on the statistic (count_le: C11_peel_top_group) *)
+Theorem C11_peel_top_group_any_predicate : forall P t tK n, Forall (fun x => 0 <= x) t -> 0 <= tK ->
+  count_if P (t ++ [tK]) n
+  = sumf (fun rK => choose tK rK
+                    * count_if (fun w => P (w + rK * (2 * (zsum t - (n - rK)) + (tK - rK)))) t (n - rK))
+         (zrange 0 tK).
+Proof. exact count_if_snoc. Qed.
+Print Assumptions C11_peel_top_group_any_predicate.
+
+(** the generating-function evaluator: entry w of the histogram truncated at degree L is the
+    number of choices with 2U = w (loop invariant of hist_loop over the runs) *)
+Theorem C11_histogram_is_mass_function : forall L t n1 w, Forall (fun x => 0 <= x) t -> 0 <= n1 ->
+  (w < L)%nat -> nth w (hist L t n1) 0 = count_eq t n1 (Z.of_nat w).
+Proof. exact hist_coefficient. Qed.
+Print Assumptions C11_histogram_is_mass_function.
+
+(** fast_evaluator_agrees: the polynomial-time evaluator computes the specification's tails *)
+Theorem C11_fast_evaluator_agrees : forall t n1 u, Forall (fun x => 0 <= x) t -> (0 <= n1 \/ t <> []) ->
+  fast_count_le t n1 u = count_le t n1 u /\ fast_count_ge t n1 u = count_ge t n1 u.
+Proof. exact fast_evaluator_correct. Qed.
+Print Assumptions C11_fast_evaluator_agrees.
+
+(** total_is_count_all: the denominator C(N, n1) is the weight of all count vectors, and
+    Pascal's binomial *)
+Theorem C11_total_is_count_all : forall t n1, Forall (fun x => 0 <= x) t ->
+  total t n1 = count_all t n1 /\
+  (0 <= n1 <= zsum t -> total t n1 = binom (Z.to_nat (zsum t)) (Z.to_nat n1)).
+Proof. exact total_counts_all_choices. Qed.
+Print Assumptions C11_total_is_count_all.
+
+(** [splits l n] lists every way to choose n POSITIONS of l once: C(|l|, n) entries, each a
+    pair (chosen, rest) of complementary subsequences *)
+Theorem C11_splits_enumerates_subsets : forall (l : list Z) (n : nat),
+  Z.of_nat (length (splits l n)) = binom (length l) n /\
+  forall c r, In (c, r) (splits l n) -> length c = n /\ Permutation.Permutation (c ++ r) l.
+Proof. exact splits_enumerates_subsets. Qed.
+Print Assumptions C11_splits_enumerates_subsets.
+
+(** subsets_agree: summing any predicate of the PAIR-COUNT statistic over the n1-subsets of
+    positions of the pooled sample = the count-vector specification (weight t r subsets share
+    the count vector r and the statistic twoU_of t r), for every predicate P *)
+Theorem C11_subsets_agree : forall (P : Z -> bool) t n1, Forall (fun x => 0 <= x) t -> 0 <= n1 ->
+  subsets_count_if P t n1 = count_if P t n1.
+Proof. exact subsets_agree. Qed.
+Print Assumptions C11_subsets_agree.
+
+(** hence the declarative reading of the exact tails: number of n1-subsets of the pooled
+    items with U <= u (U >= u), over the number C(N, n1) of all n1-subsets *)
+Theorem C11_tails_count_subsets : forall t n1 u, Forall (fun x => 0 <= x) t -> 0 <= n1 ->
+  count_le t n1 u = subsets_count_if (fun w => w <=? u) t n1 /\
+  count_ge t n1 u = subsets_count_if (fun w => u <=? w) t n1 /\
+  total t n1 = Z.of_nat (length (splits (pooled t) (Z.to_nat n1))).
+Proof. exact tails_count_subsets. Qed.
+Print Assumptions C11_tails_count_subsets.
+
+(** ** what prop_ok (Corr/RunC11.v) judges the implementation against. The counts it uses
+    ([spec_le], [spec_ge], [spec_eq]: enumeration within the budget; beyond it the
+    Mann-Whitney table evaluator [untied_le]/[untied_ge] when the tie vector is all ones,
+    the generating-function evaluator otherwise) are the declarative counts, whichever
+    branch is taken *)
+Theorem C11_judged_counts_are_spec : forall t n1 u, Forall (fun x => 0 <= x) t -> (0 <= n1 \/ t <> []) ->
+  Perf.Corr.RunC11.spec_le t n1 u = count_le t n1 u /\
+  Perf.Corr.RunC11.spec_ge t n1 u = count_ge t n1 u /\
+  Perf.Corr.RunC11.spec_eq t n1 u = count_eq t n1 u.
+Proof. exact judged_counts_correct. Qed.
+Print Assumptions C11_judged_counts_are_spec.
+
+(** on samples nothing is assumed: the fraction prop_ok_u compares the reported p-value
+    with is (P(U <= u) | P(U >= u) | min 1 (2 min ..)) over C(N, n1) of the specification *)
+Theorem C11_judged_p_is_exact_tail : forall x1 x2 a,
+  let t := pool_T x1 x2 in let n1 := zlen x1 in let u := twoU_pairs x1 x2 in
+  fst (Perf.Corr.RunC11.spec_p t n1 u a) = (tail_num a t n1 u, total t n1).
+Proof. exact judged_p_is_exact_tail. Qed.
+Print Assumptions C11_judged_p_is_exact_tail.
+
+(** ... so an accepted numeric outcome in the exact regime HAS been found close to the
+    declarative exact tail (tolerance: Corr/RunC11.v [close], slack as documented there) *)
+Theorem C11_prop_ok_judges_exact_tail : forall (c : Perf.Corr.RunC11.ucase) o1 o2 U P ae,
+  let x1 := Perf.Corr.RunC11.u_x1 c in let x2 := Perf.Corr.RunC11.u_x2 c in
+  let t := pool_T x1 x2 in let n1 := zlen x1 in let n2 := zlen x2 in let u := twoU_pairs x1 x2 in
+  Perf.Corr.RunC11.u_out c = Perf.Corr.RunC11.ONum o1 o2 U P ae ->
+  Perf.Corr.RunC11.exact_regime t n1 n2 = true -> Perf.Corr.RunC11.prop_ok_u c = true ->
+  Perf.Corr.RunC11.close P (tail_num (Perf.Corr.RunC11.u_alt c) t n1 u) (total t n1)
+                         (snd (Perf.Corr.RunC11.spec_p t n1 u (Perf.Corr.RunC11.u_alt c))) = true.
+Proof. exact prop_ok_u_judges_exact_tail. Qed.
+Print Assumptions C11_prop_ok_judges_exact_tail.
+
+(** the per-case closures [le], [eq] of prop_ok_d (UDist.CDF/PMF cases), on every branch:
+    enumeration within the budget, the Mann-Whitney table [untied_table] without ties, the
+    generating-function histogram with ties *)
+Theorem C11_judged_histogram_is_spec : forall t n1 n2 u,
+  Forall (fun x => 0 <= x) t -> 0 <= n1 -> 0 <= n2 -> zsum t = n1 + n2 ->
+  let small := Perf.Corr.RunC11.vec_budget t <=? Perf.Corr.RunC11.enum_budget in
+  let untied := Perf.Corr.RunC11.is_ones t in
+  let h := if small then [] else if untied then untied_table n1 n2
+           else hist (Z.to_nat (2 * (n1 * n2) + 2)) t n1 in
+  (if small then count_le t n1 u else if untied then tab_le h u else Perf.Corr.RunC11.hist_le h u) = count_le t n1 u /\
+  (if small then count_eq t n1 u else if untied then tab_eq h u else Perf.Corr.RunC11.hist_eq h u) = count_eq t n1 u.
+Proof. exact dist_closures_correct. Qed.
+Print Assumptions C11_judged_histogram_is_spec.
 
 (** errors_iff: an empty sample, and only that, is ErrSampleSize; in the exact regime
     all-equal pooled values, and only that, are ErrSamplesEqual. *)
@@ -439,3 +582,35 @@ Example C11_example_untied :
   b64_eq (sigma_of 51 1 [51; 1]) b64_zero = false /\ b64_eq (sigma_of 26 26 [52]) b64_zero = true /\
   2 * 2 * 2 - 2 < 2 ^ 53.
 Proof. vm_compute. repeat split. Qed.
+
+(** non-vacuity of the hypotheses of the evaluator theorems, and their necessity: a tie vector
+    beyond the enumeration budget (4^8 count vectors: prop_ok takes the fast branch; and an untied
+    one, 2^16 count vectors: the table branch) on which
+    all evaluators are run; with no run at all and a negative size the fast evaluator and the
+    enumeration by [splits] (whose size is a natural number) differ from the specification *)
+Example C11_example_evaluators :
+  Forall (fun x => 0 <= x) [3; 3; 3; 3; 3; 3; 3; 3] /\ (0 <= 12 \/ [3; 3; 3; 3; 3; 3; 3; 3] <> []) /\
+  (Perf.Corr.RunC11.vec_budget [3; 3; 3; 3; 3; 3; 3; 3] <=? Perf.Corr.RunC11.enum_budget) = false /\
+  Perf.Corr.RunC11.spec_le [3; 3; 3; 3; 3; 3; 3; 3] 12 130 = 903163 /\ count_le [3; 3; 3; 3; 3; 3; 3; 3] 12 130 = 903163 /\
+  Perf.Corr.RunC11.spec_ge [3; 3; 3; 3; 3; 3; 3; 3] 12 130 = 1800993 /\ count_ge [3; 3; 3; 3; 3; 3; 3; 3] 12 130 = 1800993 /\
+  total [3; 3; 3; 3; 3; 3; 3; 3] 12 = 2704156 /\ binom 24 12 = 2704156 /\
+  (* the untied branch beyond the budget (2^16 count vectors): the Mann-Whitney table evaluator *)
+  (Perf.Corr.RunC11.vec_budget (repeat 1 16) <=? Perf.Corr.RunC11.enum_budget) = false /\
+  Perf.Corr.RunC11.is_ones (repeat 1 16) = true /\ Perf.Corr.RunC11.is_ones [3; 3; 3; 3; 3; 3; 3; 3] = false /\
+  Perf.Corr.RunC11.spec_le (repeat 1 16) 8 60 = 5653 /\ count_le (repeat 1 16) 8 60 = 5653 /\
+  Perf.Corr.RunC11.spec_ge (repeat 1 16) 8 60 = 7732 /\ count_ge (repeat 1 16) 8 60 = 7732 /\
+  Forall (fun x => 0 <= x) [2; 3; 1; 4; 2; 3] /\ 0 <= 7 /\
+  subsets_count_if (fun w => w <=? 50) [2; 3; 1; 4; 2; 3] 7 = 2377 /\ count_le [2; 3; 1; 4; 2; 3] 7 50 = 2377 /\
+  Z.of_nat (length (splits (pooled [2; 3; 1; 4; 2; 3]) 7)) = 6435 /\ total [2; 3; 1; 4; 2; 3] 7 = 6435 /\
+  tail_num Differs (pool_T [1; 2] [1; 3; 0]) (zlen [1; 2]) (twoU_pairs [1; 2] [1; 3; 0]) = 10 /\
+  (* the hypotheses on n1 are needed *)
+  fast_count_le [] (-1) 0 = 1 /\ count_le [] (-1) 0 = 0 /\
+  subsets_count_if (fun _ => true) [1] (-1) = 1 /\ count_if (fun _ => true) [1] (-1) = 0.
+Proof.
+  repeat split.
+  all: try (vm_compute; reflexivity).
+  - repeat constructor; lia.
+  - left; lia.
+  - repeat constructor; lia.
+  - lia.
+Qed.
